@@ -20,7 +20,9 @@ import coqio as C
 import gen_c10 as G
 
 PROP = "C11"
-RULE = ("seeded random symmetric coolers (2..8 bins, 1-3 chromosomes, empty rows, isolated bins, non-zero diagonal) + regression corpus x "
+RULE = ("HISTORY scenarios (one process, one path: write A -> balance / split().pipe -> overwrite with B of the same number of bins but another "
+        "chromosome layout / pixels / bins columns -> same calls, with builtin, thread-pool and a reused process-pool map, reused Cooler object, store=True then "
+        "re-balance; each result must equal the dense reference of the data stored now and the same call on a fresh copy) + seeded random symmetric coolers (2..8 bins, 1-3 chromosomes, empty rows, isolated bins, non-zero diagonal) + regression corpus x "
         "option vectors (mode, ignore_diags 0..3, min_nnz 0..3, min_count, mad_max 0..3, blacklist, tol, max_iters, x0) x chunksize in "
         "{1,2,3,nnz-1,nnz,nnz+1,default,None} x map functor in {builtin, list-map, reversed results, seeded permutation, reverse-evaluated lazy, "
         "Pool.map/imap/imap_unordered (2 workers)} x 2 repeats; non-trivial = more than one chunk or a non-builtin map; distinct by (cooler, options, chunk, map)")
@@ -168,6 +170,196 @@ def run(ctx):
         if pool4 is not None:
             pool4.terminate()
 
+# ---------------------------------------------------------------------------------------------------------
+# HISTORY cases: several operations in ONE process on the SAME path; the file behind the path is replaced
+# between them. Every result must equal the result of the same call in a fresh state: the dense reference of
+# the data stored NOW (independent oracle) and the same call on a differently-named copy written just now.
+def _opts(cis=False, trans=False, diags=0, nnz=0, tol=1e-6, iters=25, rescale=True):
+    return {"cis": cis, "trans": trans, "diags": diags, "mad": 0, "nnz": nnz, "count": 0, "black": None, "tol": tol,
+            "iters": iters, "x0": None, "rescale": rescale}
+
+
+def _full(n, f):
+    return [[i, j, f(i, j)] for i in range(n) for j in range(i, n)]
+
+
+HIST_A = _full(5, lambda i, j: 1 + (2 * i + 3 * j) % 7)
+HIST_B = _full(5, lambda i, j: 2 + (i * j + j) % 5)
+
+
+def history_scenarios(rng, thorough):
+    sc = []
+    for m in ("builtin", "thread", "pool"):
+        sc.append({"history": f"replace layout, cis/trans, map={m}", "steps": [
+            {"op": "write", "per": [2, 3], "pixels": HIST_A},
+            {"op": "balance", "o": _opts(cis=True), "chunk": 4, "map": m, "obj": "new"},
+            {"op": "write", "per": [3, 2], "pixels": HIST_B},
+            {"op": "balance", "o": _opts(cis=True), "chunk": 4, "map": m, "obj": "new"},
+            {"op": "balance", "o": _opts(trans=True, tol=1e-3, iters=8), "chunk": 3, "map": m, "obj": "reuse"},
+            {"op": "write", "per": [1, 4], "pixels": HIST_B},
+            {"op": "balance", "o": _opts(cis=True, diags=1), "chunk": None, "map": m, "obj": "new"}]})
+        sc.append({"history": f"split().pipe chains across a replaced file, map={m}", "steps": [
+            {"op": "write", "per": [2, 3], "pixels": HIST_A},
+            {"op": "pipe", "what": "chromids", "chunk": 4, "map": m},
+            {"op": "write", "per": [4, 1], "pixels": HIST_A},
+            {"op": "pipe", "what": "chromids", "chunk": 4, "map": m},
+            {"op": "pipe", "what": "cis_marg", "chunk": 3, "map": m},
+            {"op": "write", "per": [4, 1], "pixels": HIST_A, "extra_bins_col": True},
+            {"op": "pipe", "what": "binkeys", "chunk": 6, "map": m},
+            {"op": "write", "per": [3, 3], "pixels": _full(6, lambda i, j: 1 + (i + j) % 4)},
+            {"op": "pipe", "what": "chromids", "chunk": 5, "map": m}]})
+    sc.append({"history": "store=True, pipe sees the new column, re-balance, same object reused", "steps": [
+        {"op": "write", "per": [2, 3], "pixels": HIST_A},
+        {"op": "pipe", "what": "binkeys", "chunk": 6, "map": "builtin"},
+        {"op": "balance", "o": _opts(diags=1), "chunk": None, "map": "builtin", "obj": "new", "store": "weight"},
+        {"op": "pipe", "what": "binkeys", "chunk": 6, "map": "builtin"},
+        {"op": "balance", "o": _opts(cis=True), "chunk": 3, "map": "builtin", "obj": "reuse", "store": "weight"},
+        {"op": "balance", "o": _opts(trans=True, tol=1e-3, iters=8), "chunk": 3, "map": "thread", "obj": "reuse"},
+        {"op": "write", "per": [3, 2], "pixels": HIST_A},
+        {"op": "pipe", "what": "binkeys", "chunk": 6, "map": "pool"},
+        {"op": "balance", "o": _opts(cis=True), "chunk": 3, "map": "pool", "obj": "reuse"}]})
+    for _ in range(12 if thorough else 3):          # random histories: same number of bins, different layouts / pixels
+        n = rng.randint(4, 7)
+        steps = []
+        for k in range(rng.randint(2, 3)):
+            while True:
+                per = G.random_per(rng)
+                if sum(per) == n and len(per) >= 2:
+                    break
+            px = G.random_pixels(rng, per, density=rng.choice([0.8, 1.0]), empty_rows=False)
+            steps.append({"op": "write", "per": per, "pixels": px})
+            mode = rng.choice(["cis", "trans", "gw"])
+            o = _opts(cis=mode == "cis", trans=mode == "trans", diags=rng.choice([0, 1]), tol=rng.choice([1e-2, 1e-3]), iters=rng.choice([3, 20]))
+            steps.append({"op": "balance", "o": o, "chunk": rng.choice([None, 2, 5]), "map": rng.choice(["builtin", "thread", "pool"]),
+                          "obj": rng.choice(["new", "reuse"]) if k else "new"})
+            if rng.random() < 0.5:
+                steps.append({"op": "pipe", "what": rng.choice(["chromids", "cis_marg"]), "chunk": rng.choice([2, 5]),
+                              "map": rng.choice(["builtin", "thread", "pool"])})
+        sc.append({"history": "random", "steps": steps})
+    return sc
+
+
+def _pipe_chromids(chunk):
+    ch = np.asarray(chunk["bins"]["chrom"]).astype(str)
+    px = chunk["pixels"]
+    return [(str(ch[a]), str(ch[b])) for a, b in zip(px["bin1_id"], px["bin2_id"])]
+
+
+def _pipe_binkeys(chunk):
+    return [sorted(chunk["bins"].keys())]
+
+
+def _pipe_cis_marg(chunk):
+    ch = np.asarray(chunk["bins"]["chrom"]).astype(str)
+    px = chunk["pixels"]
+    m = np.zeros(len(ch))
+    cis = ch[px["bin1_id"]] == ch[px["bin2_id"]]
+    np.add.at(m, px["bin1_id"][cis], px["count"][cis])
+    return [m]
+
+
+def run_history(sc, tmp, pool):
+    """execute one scenario; True or the detail of the first step whose result differs from the fresh state"""
+    import cooler
+    import h5py
+    from cooler.parallel import split
+    from multiprocess.pool import ThreadPool
+    P = tmp / "hist.cool"
+    tp = ThreadPool(2)
+    mapf = {"builtin": map, "thread": tp.imap, "pool": pool.imap_unordered}
+    pipef = {"builtin": map, "thread": tp.map, "pool": pool.map}          # order-preserving for gather
+    cur = None
+    first_obj = None
+    stored = []
+    try:
+        for k, st in enumerate(sc["steps"]):
+            if st["op"] == "write":
+                G.build_cooler(P, st["per"], st["pixels"])
+                if st.get("extra_bins_col"):
+                    with h5py.File(P, "r+") as h5:
+                        h5["bins"].create_dataset("gc", data=np.linspace(0.3, 0.6, sum(st["per"])))
+                cur = st
+                stored = []
+                continue
+            per, pixels = cur["per"], cur["pixels"]
+            n = sum(per)
+            if st["op"] == "balance":
+                o = st["o"]
+                F = G.dense_int(n, pixels)
+                b0, ties = G.ref_masks(o, per, F)
+                groups = G.ref_loop_float(o, per, F, b0)
+                if ties or G.near_tol(groups, o["tol"]):
+                    continue
+                wref = G.assemble(n, groups, o["rescale"])
+                if st.get("obj") == "reuse" and first_obj is not None:
+                    clr = first_obj
+                else:
+                    clr = cooler.Cooler(str(P))
+                    if first_obj is None:
+                        first_obj = clr
+                kw = {}
+                if st.get("store"):
+                    kw = {"store": True, "store_name": st["store"]}
+                r = G.call_balance(clr, o, st["chunk"], mapf[st["map"]], limit=90.0, **kw)
+                if st.get("store") and st["store"] not in stored:
+                    stored.append(st["store"])
+                Q = tmp / f"hist_copy_{k}.cool"
+                G.build_cooler(Q, per, pixels)
+                rq = G.call_balance(cooler.Cooler(str(Q)), o, st["chunk"], map, limit=90.0)
+                os.remove(Q)
+                ok = (not isinstance(r, str) and not isinstance(rq, str) and G.vec_close(r["w"], wref, 1e-9)
+                      and stats_close(r, groups, o) and G.vec_close(r["w"], rq["w"], 1e-9))
+                if ok and st.get("store"):
+                    col = cooler.Cooler(str(P)).bins()[st["store"]][:].values
+                    ok = G.vec_close(col, wref, 1e-9)
+                if not ok:
+                    return {"step": k, "op": st, "layout": per,
+                            "result": r if isinstance(r, str) else [None if x != x else float(x) for x in r["w"]],
+                            "fresh_copy": rq if isinstance(rq, str) else [None if x != x else float(x) for x in rq["w"]],
+                            "reference": [None if x != x else float(x) for x in wref]}
+            else:
+                chrom = G.chroms_of(per)
+                spx = sorted(map(tuple, pixels))
+                fn = {"chromids": _pipe_chromids, "binkeys": _pipe_binkeys, "cis_marg": _pipe_cis_marg}[st["what"]]
+
+                def go():
+                    return list(split(cooler.Cooler(str(P)), map=pipef[st["map"]], chunksize=st["chunk"]).pipe(fn).gather())
+                got = G.with_limit(60.0, go)
+                if st["what"] == "chromids":
+                    exp = [(f"c{chrom[a]}", f"c{chrom[b]}") for a, b, _ in spx]
+                    val = got if isinstance(got, str) else [tuple(x) for part in got for x in part]
+                elif st["what"] == "binkeys":
+                    keys = sorted(["chrom", "start", "end"] + (["gc"] if cur.get("extra_bins_col") else []) + stored)
+                    nch = -(-len(spx) // st["chunk"])
+                    exp = [keys] * nch
+                    val = got if isinstance(got, str) else [list(x) for part in got for x in part]
+                else:
+                    m = [0.0] * n
+                    for a, b, c in spx:
+                        if chrom[a] == chrom[b]:
+                            m[a] += float(c)
+                    exp = m
+                    val = got if isinstance(got, str) else [float(x) for x in np.sum([part[0] for part in got], axis=0)]
+                if val != exp:
+                    return {"step": k, "op": st, "layout": per, "got": val if isinstance(val, str) else val[:40], "expected": exp[:40]}
+        return True
+    finally:
+        tp.terminate()
+        if P.exists():
+            os.remove(P)
+
+
+def history(ctx, tmp, rng, pool, thorough):
+    n = 0
+    for sc in history_scenarios(rng, thorough):
+        ctx.case(sc, nontrivial=True, kind="history")
+        res = G.with_limit(240.0, lambda: run_history(sc, tmp, pool))
+        n += 1
+        if res is not True:
+            ctx.fail(sc, {"what": "result depends on the process history (differs from the fresh-state result)",
+                          "detail": res}, None)
+    return n
+
 
 def _run(ctx, cooler, split, B, pool, pool4, maps, thorough, rng, tmp):
     pmaps = {"pool.map": pool.map, "pool.imap": pool.imap, "pool.imap_unordered": pool.imap_unordered}
@@ -177,7 +369,7 @@ def _run(ctx, cooler, split, B, pool, pool4, maps, thorough, rng, tmp):
 
     # ------------------------------------------------------------ cases
     cases = [dict(c) for c in CORPUS]
-    ncool = 60 if thorough else 12
+    ncool = 60 if thorough else 9
     while len(cases) < ncool + len(CORPUS):
         per = G.random_per(rng)
         px = G.random_pixels(rng, per)
@@ -215,7 +407,7 @@ def _run(ctx, cooler, split, B, pool, pool4, maps, thorough, rng, tmp):
             nchunks = 1 if c is None else -(-nnz // c)
             names = list(seq_names)
             rng.shuffle(names)
-            pick = names[:2] if (thorough or ci < len(CORPUS)) else names[:1]
+            pick = names[:2] if (thorough or ci < 4) else names[:1]
             if "builtin" not in pick and c in (1, None):
                 pick.append("builtin")
             # pools on a few (thorough: more)
@@ -306,6 +498,9 @@ def _run(ctx, cooler, split, B, pool, pool4, maps, thorough, rng, tmp):
                     ctx.fail(case2, {"visits": visits if isinstance(visits, str) else visits.tolist()}, None)
         os.remove(tmp / f"c{ci}.cool")
 
+    # ------------------------------------------------------------ histories in one process on one path
+    nhist = history(ctx, tmp, rng, pool, thorough)
+
     # ------------------------------------------------------------ use_lock=True (global multiprocess lock around the HDF5 read)
     lock_cs = cases[4]
     per, pixels, o = lock_cs["per"], lock_cs["pixels"], lock_cs["o"]
@@ -383,10 +578,17 @@ def _run(ctx, cooler, split, B, pool, pool4, maps, thorough, rng, tmp):
                     impl if isinstance(impl, str) else [[str(x) for x in r] for r in impl],
                     [[str(x) for x in r] for r in model])
     ctx.extra["runs"] = {"balance_runs": nruns, "coolers": len(cases), "skipped_float_fragile": skipped,
-                         "cli_runs": ncli, "span_lists_compared": len(span_exprs), "pipelines_compared": len(chunk_exprs)}
+                         "cli_runs": ncli, "histories": nhist, "span_lists_compared": len(span_exprs), "pipelines_compared": len(chunk_exprs)}
 
 
 def replay(ctx, case):
+    if "history" in case:
+        from multiprocess import Pool as _Pool
+        hp = _Pool(2)
+        try:
+            return run_history(case, ctx.tmp, hp) is True
+        finally:
+            hp.terminate()
     import cooler
     from cooler.parallel import split
     from multiprocess import Pool
